@@ -26,6 +26,7 @@ import (
 )
 
 type Clause struct {
+	Ord   int      // position in the contract's full clause list (stable under property filtering)
 	Props []string // non-empty: the clause belongs to these properties only
 	Text  string
 	Expr  ast.Expr
